@@ -598,6 +598,12 @@ impl World {
         } else if got != exp || !all_ok {
             problems.push((vec!["C04"], "handout-unverified", format!("object {} handed out after steps {:?}, expected {:?} all succeeding", id, o.steps, exp)));
         }
+        // "errors surface exactly": a creation step that failed in this call
+        // ends the call with that error - the call does not go on to hand out
+        // something else
+        if let Some((site, n)) = self.gets[gi].env_errs.iter().find(|(s, _)| matches!(s, Site::Create | Site::PostCreate(_))) {
+            problems.push((vec!["C04"], "creation-error-swallowed", format!("get() returned object {} although {:?} failed with error {} in this very call", id, site, n)));
+        }
         // metrics at hand-out (C13)
         let exp_count = o.handouts as usize;
         if m.recycle_count != exp_count {
@@ -661,6 +667,10 @@ impl World {
                 desc = format!("Backend({})", n);
                 if !g.env_errs.iter().any(|(s, k)| *s == Site::Create && k == n) {
                     bad = Some(("backend-error-not-from-create", format!("get() returned Backend({}) but Manager::create did not fail with it in this call (errors seen: {:?})", n, g.env_errs)));
+                } else if let Some((_, first)) = g.env_errs.iter().find(|(s, _)| matches!(s, Site::Create | Site::PostCreate(_))) {
+                    if first != n {
+                        bad = Some(("creation-error-replaced", format!("get() returned Backend({}) but the first creation step that failed in this call failed with {} (errors seen: {:?})", n, first, g.env_errs)));
+                    }
                 }
             }
             PoolError::PostCreateHook(he) => {
